@@ -8,7 +8,9 @@
     completion table [L] lists [id] for fallback level [k] and state [s].  The literal order is
     a parameter (ties of an unstable sort, DESIGN 4.3): every theorem holds for every duplicate-free
     order, and [C04_valid_order_covers] says a valid order numbers every literal of the automaton. *)
-From CG Require Import Base.Prelude Model.Ast Model.Dfa Model.Tables Proofs.TablesSound.
+From CG Require Import Base.Prelude Model.Ast Model.Dfa Model.Tpl Model.Quote Model.Tables Model.EmitBash
+     Spec.ShellDQ Spec.ScriptRead Proofs.TablesSound Proofs.BashCodec.
+From CGgen Require Import TplBash.
 Open Scope N_scope.
 Open Scope list_scope.
 
@@ -349,3 +351,94 @@ Check C04_refuted_same_text_two_levels :
     /\ trans_on tl_dfa 0 (ILit "a" None 0) 1
     /\ t_mlit t = [(0, [(2, 2)]); (1, [(1, 3)]); (2, [(0, 3)])].
 Print Assumptions C04_refuted_same_text_two_levels.
+
+(** bash, codec round trip of the table section every function of the script carries (literal list, match
+    tables, completion tables), printed from the templates regenerated from bash.rs: the specification-side
+    reader gives back exactly the statements [table_stmts t] -- literal texts, every row, every level, the
+    star pairs, max_fallback_level -- and resumes right after the section.  Literals must be outside
+    C07's bash hazard class. *)
+Theorem C04_embed_bash_tables :
+  forall t : tables,
+    Forall (admissible Bash) (map (fun l => snd (fst l)) (t_literals t)) ->
+    forall (k : nat) (rest : string),
+    scan (List.length (table_stmts t) + k) Bash
+         (append (write_literals t) (append (write_match_transitions t) (append (write_completion_tables t) rest)))
+    = table_stmts t ++ scan k Bash rest.
+Proof. exact bash_tables_roundtrip. Qed.
+Check C04_embed_bash_tables :
+  forall t : tables,
+    Forall (admissible Bash) (map (fun l => snd (fst l)) (t_literals t)) ->
+    forall (k : nat) (rest : string),
+    scan (List.length (table_stmts t) + k) Bash
+         (append (write_literals t) (append (write_match_transitions t) (append (write_completion_tables t) rest)))
+    = table_stmts t ++ scan k Bash rest.
+Print Assumptions C04_embed_bash_tables.
+
+(** the same for the within-word transition rows of the completion function *)
+Theorem C04_embed_bash_subword_rows :
+  forall (m : list (N * list (N * N))) (k : nat) (rest : string),
+    scan (List.length m + k) Bash
+         (append (sconcat (map (fun row => fmtln write_completion_script_5
+                                  [("state", sN (fst row)); ("state_transitions", join " " (map kv (snd row)))]) m)) rest)
+    = row_stmts "subword_transitions" m ++ scan k Bash rest.
+Proof. exact bash_subword_rows_roundtrip. Qed.
+Check C04_embed_bash_subword_rows :
+  forall (m : list (N * list (N * N))) (k : nat) (rest : string),
+    scan (List.length m + k) Bash
+         (append (sconcat (map (fun row => fmtln write_completion_script_5
+                                  [("state", sN (fst row)); ("state_transitions", join " " (map kv (snd row)))]) m)) rest)
+    = row_stmts "subword_transitions" m ++ scan k Bash rest.
+Print Assumptions C04_embed_bash_subword_rows.
+
+(** and for its within-word candidate tables *)
+Theorem C04_embed_bash_subword_levels :
+  forall (levels : list (list (N * list N))) (k : nat) (rest : string),
+    scan (List.length levels + k) Bash
+         (append (write_levels write_completion_script_11 write_completion_script_12 levels) rest)
+    = level_stmts "subword_transitions_level_" levels ++ scan k Bash rest.
+Proof. exact bash_subword_levels_roundtrip. Qed.
+Check C04_embed_bash_subword_levels :
+  forall (levels : list (list (N * list N))) (k : nat) (rest : string),
+    scan (List.length levels + k) Bash
+         (append (write_levels write_completion_script_11 write_completion_script_12 levels) rest)
+    = level_stmts "subword_transitions_level_" levels ++ scan k Bash rest.
+Print Assumptions C04_embed_bash_subword_levels.
+
+(** The whole-script statement (reader applied to [EmitBash.script ...] = the data of [all_tables ...],
+    including function headers, command bodies, wrappers, start state and registration) is NOT proved; it
+    would be:
+      Definition C04_embed_bash_statement : Prop :=
+        forall command sig c om os groups s valid,
+          script_of_dfa command sig c om os groups = Ok (s, valid) -> valid = true ->
+          decode (read_stmts Bash s) = Some (embedded data of all_tables Bash c om os).
+    What is proved is the round trip of every table section and table statement (above); the rest of
+    the script (fixed skeleton + headers) is covered on every run by the byte-for-byte tie of
+    [EmitBash.script] against Rust's script and by the direct judgement of the extracted reader on
+    Rust's script. *)
+
+(** Non-vacuity: the tables of a small automaton with a within-word automaton, a command and two
+    fallback levels are computed ([all_tables] = Ok), the automaton is well-formed, the literal
+    order valid and duplicate-free, and the printed table section is read back. *)
+Definition ex_sub : dfa :=
+  mkdfa 0 [(0, [(0, 1)]); (1, [(1, 2); (2, 2)])] [2] [ILit "--k=" None 0; ILit "x" (Some "dx") 0; ILit "y" None 1].
+Definition ex_cdfa : cdfa :=
+  mkcdfa (mkdfa 0 [(0, [(0, 1); (1, 1); (2, 2)]); (2, [(3, 1)])] [1]
+                [ILit "a$" (Some "d") 0; ISub 0 0; ICmd "echo c" 1; IStar]) [ex_sub].
+Definition ex_om : list (string * string) := [("a$", "d")].
+Definition ex_os : list (N * list (string * string)) := [(0, [("--k=", ""); ("y", ""); ("x", "dx")])].
+Example ex_C04_inhabited :
+  match all_tables Bash ex_cdfa ex_om ex_os with
+  | Ok (nd, a) =>
+      valid_orders ex_cdfa ex_om ex_os = true
+      /\ t_mlit (a_main a) = [(0, [(0, 1)])]
+      /\ t_mcmd (a_main a) = Some [(0, [(0, 2)])]
+      /\ t_mstar (a_main a) = Some [(2, 1)]
+      /\ a_subtrans a = [(0, [(0, 1)])]
+      /\ read_stmts Bash (append (write_literals (a_main a)) (append (write_match_transitions (a_main a))
+                                                                 (write_completion_tables (a_main a))))
+         = table_stmts (a_main a)
+      /\ forallb (admissibleb Bash) (map (fun l => snd (fst l)) (t_literals (a_main a))) = true
+  | _ => False
+  end.
+Proof. vm_compute. repeat split. Qed.
+Print Assumptions ex_C04_inhabited.
